@@ -427,6 +427,21 @@ def level(facts, ctx, rx, name):
     return rets[0] if len(rets) == 1 else v
 
 
+def level_outcomes(facts, ctx, rx, name):
+    """like level(), but a getter that branches (the two pieces of the pitch-bend conversion) yields one (facts, value) pair
+    per path"""
+    v = rx.get(name)
+    if isinstance(v, (Num, BoolV)):
+        return [(ctx, v)]
+    with structural():
+        it = Interp(facts)
+        midi_invariants(it)
+        st = State()
+        st.ctx = ctx.copy()
+        outs, cell = run_method(it, st, RX + '::' + name, copy.deepcopy(rx), [])
+    return [(o.ctx, o.ret) for o in outs if o.status == 'returned'] or [(ctx, v)]
+
+
 def check_level_getters(res, facts):
     """level getters take &self and return the field (observation cannot disturb state)"""
     rxf = Rx(facts)
@@ -545,27 +560,28 @@ def check_routing(res, facts, only_other=False):
             continue
         post = o.cells[cell]
         ch = {c_.split('.')[0] for c_ in spec_fields_changed(pre, post, RX_FIELDS)}   # by canonical field, whatever its inner layout
-        got = level(facts, o.ctx, post, 'pitch_bend')
-        lo, hi = o.ctx.rng(v14)
-        if lo > 8192 or o.ctx.decide(cmp_term('Gt', v14, 8192)) is True:
-            exp = (v14 - 8192).scale(Fr(1, 8191))
-            part = 'value14 > 8192'
-        elif o.ctx.decide(cmp_term('Le', v14, 8192)) is True:
-            exp = (v14 - 8192).scale(Fr(1, 8192))
-            part = 'value14 <= 8192'
-        else:
-            exp = None
-            part = 'undecided'
-        ok = exp is not None and isinstance(got, Num) and got.term == exp and ch <= {'pitch_bend'}
-        res.ob('R-ROUTE', 'pitch_bend|' + part, ok, 'pitch_bend = %r, expected %r; changed %s' % (got, exp, sorted(ch)), where)
-        if exp is not None and isinstance(got, Num):
-            # strictly increasing in the 14-bit value, end points
-            d = got.term.diff(msb.as_single_atom())
-            d2 = got.term.diff(lsb.as_single_atom())
-            res.ob('R-ROUTE', 'pitch_bend monotone|' + part, d.const_value() is not None and d.const_value() > 0 and d2.const_value() is not None and d2.const_value() > 0
-                   and d.const_value() == 128 * d2.const_value(),
-                   'd/dmsb=%r d/dlsb=%r (MSB must weigh 128 x LSB)' % (d, d2), where)
-        n_pb += 1
+        for pctx, got in level_outcomes(facts, o.ctx, post, 'pitch_bend'):
+            lo, hi = pctx.rng(v14)
+            if lo > 8192 or pctx.decide(cmp_term('Gt', v14, 8192)) is True:
+                exp = (v14 - 8192).scale(Fr(1, 8191))
+                part = 'value14 > 8192'
+            elif pctx.decide(cmp_term('Le', v14, 8192)) is True:
+                exp = (v14 - 8192).scale(Fr(1, 8192))
+                part = 'value14 <= 8192'
+            else:
+                exp = None
+                part = 'undecided'
+            ok = exp is not None and isinstance(got, Num) and got.term == exp and ch <= {'pitch_bend'}
+            res.ob('R-ROUTE', 'pitch_bend|' + part, ok, 'pitch_bend = %r, expected %r; changed %s' % (got, exp, sorted(ch)), where)
+            if exp is not None and isinstance(got, Num):
+                # strictly increasing in the 14-bit value, end points
+                d = got.term.diff(msb.as_single_atom())
+                d2 = got.term.diff(lsb.as_single_atom())
+                res.ob('R-ROUTE', 'pitch_bend monotone|' + part, d.const_value() is not None and d.const_value() > 0 and d2.const_value() is not None and d2.const_value() > 0
+                       and d.const_value() == 128 * d2.const_value(),
+                       'd/dmsb=%r d/dlsb=%r (MSB must weigh 128 x LSB)' % (d, d2), where)
+
+            n_pb += 1
     res.floor('pitch_bend_pieces', n_pb, 2)
     # end points via substitution into the two pieces
     res.ob('R-ROUTE', 'pitch_bend endpoints', Fr(0 - 8192, 8192) == -1 and Fr(16383 - 8192, 8191) == 1, 'by the piece formulas')
